@@ -7,7 +7,7 @@ LEVEL = "model_checking"
 def run(tier, seed, limit=0):
     chk = engine.Check("C04", tier, seed)
     scs = fam_list.family_fixed(tier, seed) + fam_list.family_randsz(tier, seed) + fam_list.family_objlist(tier, seed)
-    scs += fam_list.family_objlist_randsz(tier, seed) + fam_list.family_randsz_nested(tier, seed)
+    scs += fam_list.family_objlist_randsz(tier, seed) + fam_list.family_randsz_nested(tier, seed) + fam_list.family_uniqvec(tier, seed)
     if limit:
         scs = scs[:limit]
     chk.run_scenarios(scs, "Trace_VscRand")
